@@ -861,7 +861,8 @@ export class RegexRuntype extends BaseRuntype {
 
   constructor(metadata: RuntypeMetadata | undefined, regex: RegExp, description: string) {
     super(metadata);
-    this.regex = regex;
+    // a template literal type denotes whole strings: anchor the generated expression
+    this.regex = new RegExp(`^(?:${regex.source})$`, regex.flags);
     this.description = description;
   }
 
